@@ -994,6 +994,20 @@ impl HttpSink {
     }
 }
 
+/// batch sizes around the points where list / array headers switch to a longer form
+/// only one shard per target sends the 65535..65537-record batches (`--huge 1`)
+static HUGE: std::sync::atomic::AtomicBool = std::sync::atomic::AtomicBool::new(false);
+
+fn boundary_size(k: usize) -> Option<usize> {
+    match BOUNDARY_SIZES.get(k) {
+        Some(b) if *b < 60000 || HUGE.load(std::sync::atomic::Ordering::SeqCst) => Some(*b),
+        Some(_) => Some(1 + k),
+        None => None,
+    }
+}
+
+const BOUNDARY_SIZES: [usize; 16] = [14, 15, 16, 17, 31, 32, 33, 127, 128, 129, 255, 256, 257, 65535, 65536, 65537];
+
 fn run_datadog(st: &mut St, r: &mut Rng, n: usize, deadline: Instant) {
     let sink = HttpSink::new();
     let mut rep = fastrace_datadog::DatadogReporter::new(sink.addr, "svc", "res", "web");
@@ -1005,15 +1019,23 @@ fn run_datadog(st: &mut St, r: &mut Rng, n: usize, deadline: Instant) {
         if Instant::now() > deadline {
             break;
         }
-        let sz = match r.below(5) {
-            0 => 1,
-            1 => r.below(2000),
-            _ => r.below(60),
+        // the first batches of a run have the sizes at which container headers change their
+        // encoding (msgpack fixarray / array16 / array32, thrift short / long list headers)
+        let sz = match boundary_size(k) {
+            Some(b) => b,
+            None => match r.below(5) {
+                0 => 1,
+                1 => r.below(2000),
+                _ => r.below(60),
+            },
         };
         if sz == 0 {
             continue;
         }
-        let big = r.chance(1, 4);
+        if BOUNDARY_SIZES.get(k).is_some() {
+            st.stat("boundary_size_batches", 1);
+        }
+        let big = r.chance(1, 4) && sz < 5000;
         let mut batch: Vec<SpanRecord> = (0..sz).map(|_| rand_record(r, big)).collect();
         if swell(r, &mut batch, 400, 600) {
             st.stat("records_with_over_128_events_or_properties", 1);
@@ -1157,15 +1179,18 @@ fn run_otel(st: &mut St, r: &mut Rng, n: usize, deadline: Instant) {
         if Instant::now() > deadline {
             break;
         }
-        let sz = match r.below(5) {
-            0 => 1,
-            1 => r.below(2000),
-            _ => r.below(80),
+        let sz = match boundary_size(k) {
+            Some(b) => b,
+            None => match r.below(5) {
+                0 => 1,
+                1 => r.below(2000),
+                _ => r.below(80),
+            },
         };
         if sz == 0 {
             continue;
         }
-        let big = r.chance(1, 4);
+        let big = r.chance(1, 4) && sz < 5000;
         let mut batch: Vec<SpanRecord> = (0..sz).map(|_| rand_record(r, big)).collect();
         if swell(r, &mut batch, 1500, 600) {
             st.stat("records_with_over_128_events_or_properties", 1);
@@ -1246,6 +1271,7 @@ fn main() {
             "--out" => out = v[i + 1].clone(),
             "--target" => target = v[i + 1].clone(),
             "--batches" => batches = v[i + 1].parse().unwrap_or(100),
+            "--huge" => HUGE.store(v[i + 1] == "1", std::sync::atomic::Ordering::SeqCst),
             "--time-limit" => time_limit = v[i + 1].parse().unwrap_or(20.0),
             _ => {}
         }
